@@ -378,7 +378,8 @@ pub fn generate(rs: u64, focus: &str) -> Trace {
     let nthreads = 2 + g.rng.weighted(&[55, 30, 15]);
     let mut threads: Vec<Vec<Op>> = vec![vec![]; nthreads];
     let scenario = match focus {
-        "C04" | "C15" => g.rng.weighted(&[5, 5, 0, 10, 0, 10, 70, 0]),
+        "C04" => g.rng.weighted(&[5, 5, 0, 10, 0, 10, 70, 0]),
+        "C15" => g.rng.weighted(&[5, 5, 5, 10, 0, 30, 35, 10]),
         "C09" => g.rng.weighted(&[5, 75, 0, 5, 0, 15, 0, 0]),
         "C10" => g.rng.weighted(&[0, 0, 10, 0, 0, 20, 0, 70]),
         "C11" => g.rng.weighted(&[0, 5, 60, 0, 0, 20, 0, 15]),
@@ -1035,8 +1036,17 @@ pub fn run_conc_full(trace: &Trace, scratch: PathBuf, verbose: bool, known_open:
         log.push(format!("FINDING {} {}", f.clause, f.detail));
     }
     let nops = trace.ops.len() + sorted.len();
-    if finding.is_none() {
-        finding = ref_finding;
+    match (&mut finding, ref_finding) {
+        (None, rf) => finding = rf,
+        (Some(f), Some(rf)) => {
+            for p in rf.props {
+                if !f.props.contains(&p) {
+                    f.props.push(p);
+                }
+            }
+            f.detail.push_str(&format!("; {}: {}", rf.clause, rf.detail));
+        }
+        _ => {}
     }
     let mut r = finish(finding, stats, log, sig, nops, schedule);
     r.result.known = known_out;
